@@ -111,6 +111,12 @@ def do_eval(name, checks=None, tier="quick"):
         print("patch does not apply to /repo:", out)
         return 1
     results = {}
+    # the evidence files belong to runs on the unchanged tree: keep them out of these runs' way and put them back afterwards
+    saved = {}
+    for c in checks:
+        ev = os.path.join(VERIF, "evidence", f"{c}.json")
+        if os.path.exists(ev):
+            saved[ev] = open(ev, "rb").read()
     try:
         for c in checks:
             t0 = time.time()
@@ -120,6 +126,8 @@ def do_eval(name, checks=None, tier="quick"):
             print(c, "exit", rc, "sigs", sigs[:4])
     finally:
         sh("git -C /repo checkout -- .")
+        for ev, data in saved.items():
+            open(ev, "wb").write(data)
         rc, out = sh("git -C /repo status --porcelain --untracked-files=no")
         if out.strip():
             print("WARNING: /repo not clean after undo:", out)
